@@ -476,7 +476,8 @@ import os as _os
 
 _SKIP = {"r2-annotate-4", "r2-find-1", "r2-helpers-3", "r2-resolve-2", "r2-tokenizers-4"}
 # round 5 (r3 = maintenance commits, r4 = code motion): still reported, see benign/KNOWN-LIMITS.md
-_SKIP |= {"r3-annotate-1", "r3-annotate-4", "r3-clean-2", "r3-clean-4", "r3-find-2", "r3-find-4", "r3-helpers-2", "r3-helpers-3", "r3-models-2", "r3-models-3", "r3-models-4", "r3-resolve-3", "r3-resolve-4", "r3-utils-1", "r3-utils-3", "r4-annotate-2", "r4-annotate-3", "r4-annotate-4", "r4-clean-3", "r4-clean-4", "r4-tokenizers-2", "r4-tokenizers-3", "r4-utils-3", "r4-find-1", "r4-find-2", "r4-find-3", "r4-find-4", "r4-helpers-1", "r4-helpers-3", "r4-helpers-4", "r4-resolve-1", "r4-resolve-2", "r4-resolve-4"}
+_SKIP |= {"r4-annotate-2", "r4-annotate-3", "r4-annotate-4", "r4-find-1", "r4-find-2", "r4-find-3", "r4-find-4", "r4-helpers-3", "r4-resolve-2", "r4-resolve-4",
+          "r4-tokenizers-2", "r4-tokenizers-3"}
 for _f in sorted(_glob.glob(_os.path.join(_os.path.dirname(_os.path.dirname(__file__)), "benign", "*.diff"))):
     _n = _os.path.basename(_f)[:-5]
     if _n not in _SKIP:
